@@ -25,6 +25,9 @@ _ctx_mp._mpf_module.mpf = mp.mpf
 _ctx_mp._mpf_module.mpc = mp.mpc
 from .matrices import matrices as _matrices_module
 _matrices_module.matrix = mp.matrix
+from . import ctx_mp_python as _ctx_mp_python
+_ctx_mp_python._named_constants.update((c.name, c) for c in
+    list(mp.__dict__.values()) if isinstance(c, _ctx_mp_python._constant))
 
 make_mpf = mp.make_mpf
 make_mpc = mp.make_mpc
